@@ -41,6 +41,30 @@ def impl():
                 minimal=MINIMAL_CODEC_FEATURES, bitarray=bitarray)
 
 
+class TooSlow(Exception):
+    pass
+
+
+class time_limit(object):
+    """a mutated size field can make the description loop (almost) forever: give up on such inputs"""
+    def __init__(self, seconds):
+        self.seconds = seconds
+
+    def _fire(self, *a):
+        raise TooSlow()
+
+    def __enter__(self):
+        import signal
+        self.old = signal.signal(signal.SIGALRM, self._fire)
+        signal.setitimer(signal.ITIMER_REAL, self.seconds)
+
+    def __exit__(self, *a):
+        import signal
+        signal.setitimer(signal.ITIMER_REAL, 0)
+        signal.signal(signal.SIGALRM, self.old)
+        return False
+
+
 def des(I, data):
     """-> description; raises whatever the deserialiser raises"""
     bs = I["bs"]
@@ -89,9 +113,6 @@ def configurations(I, rng, n):
         else:
             cf["lossless"] = False
             cf["picture_bytes"] = rng.choice([16, 24, 40, 64, 100])
-        if (cf["wavelet_index"] != cf["wavelet_index_ho"] or cf["dwt_depth_ho"] != 0 or cf["dwt_depth"] > 4):
-            # no default quantisation matrix for most asymmetric transforms: supply one
-            from vc2_conformance.pseudocode.video_parameters import set_source_defaults  # noqa: F401
         cf["quantization_matrix"] = None
         out.append((cf, rng.choice(["gray", "noise", "noise"]), rng.randrange(1, 3), rng.randrange(1 << 30)))
     return out
@@ -197,7 +218,7 @@ def field_mutant(I, rng, ctx):
     if isinstance(old, bool):
         new = not old
     else:
-        new = rng.choice([0, 1, old + 1, max(0, old - 1), old ^ 1, 255, 99, 7, 12, 13, 1 << rng.randrange(0, 12), old * 2 + 1])
+        new = rng.choice([0, 1, old + 1, max(0, old - 1), old ^ 1, 255, 99, 7, 12, 13, 1 << rng.randrange(0, 8), old * 2 + 1])
     node[p[-1]] = new
     return c, "%s: %r -> %r" % ("/".join(str(x) for x in p), old, new)
 
@@ -238,13 +259,17 @@ def small_offset_pad_aux(I, ctx):
 def check_bytes(I, ctx, data, label):
     """returns 'unparseable' | 'ok' | 'violation'"""
     try:
-        c1 = des(I, data)
+        with time_limit(3):
+            c1 = des(I, data)
+            snapshot = copy.deepcopy(c1)
     except Exception:
         return "unparseable"
     inp = {"bytes_hex": bytes(data).hex(), "origin": label}
-    snapshot = copy.deepcopy(c1)
     try:
-        out, c_ser = ser(I, c1)
+        with time_limit(20):
+            out, c_ser = ser(I, c1)
+    except TooSlow:
+        return "unparseable"
     except Exception as e:
         hits = small_offset_pad_aux(I, snapshot)
         if type(e).__name__ == "OutOfRangeError" and hits:
@@ -346,7 +371,7 @@ def run(ctx):
     # ---- tie C: the data-unit description as a model program ---------------------------------
     cases = []
     for code in (0x30, 0x20, 0x10, 0xE8):
-        for npo in list(range(0, 18)) + [40, 1 << 31, (1 << 32) - 1]:
+        for npo in list(range(0, 18)) + [40, 64]:  # (no huge lengths: the model counts bits in unary)
             body = [rng.randrange(256) for _ in range(rng.choice([0, 3, 8]))]
             data = parse_info_bytes(code, npo, rng.choice([0, 13])) + body
             dobs, sobs = unit_impl(I, data, None)
@@ -363,8 +388,8 @@ def run(ctx):
         run_case(bytes(bytearray(data)), "handmade:" + label)
 
     # ---- encoder output and mutants ------------------------------------------------------------
-    nconf = ctx.pick(40, 400)
-    nmut = ctx.pick(10, 30)
+    nconf = ctx.pick(160, 1500)
+    nmut = ctx.pick(14, 40)
     bases = 0
     for cf, kind, npics, seed in configurations(I, rng, nconf):
         try:
@@ -385,7 +410,8 @@ def run(ctx):
                 if mc is None:
                     continue
                 try:
-                    mdata, _ = ser(I, mc)
+                    with time_limit(3):
+                        mdata, _ = ser(I, mc)
                 except Exception:
                     ctx.count(0, bucket="field-mutant/unserialisable")
                     continue
